@@ -367,7 +367,7 @@ CHECKS["C12"] = {
     "crates": ["netconf"],
     "explanation": "(1) Capabilities::highest_common_version of the client's default hello against every server subset of {:base:1.0, :base:1.1, "
                    ":candidate}, and the framing of the first request against the negotiated version (RFC 6242 4.1/4.2).  (2) ServerHello::read_xml "
-                   "over every <hello> whose children are a sequence of length <= 3 over {session-id, capabilities} (12 layouts x 6 session-id texts {1, 4294967295, 0, 4294967296, -1, x}, walked by "
+                   "over every <hello> whose children are a sequence of length <= 3 over {session-id, capabilities} (12 layouts x session-id texts {1, 0, 4294967296} in the quick tier, {1, 4294967295, 0, 4294967296, -1, x} in the thorough tier, walked by "
                    "concrete loops in four harnesses; the solver decides every branch of the reader that does not fold): accepted iff exactly one "
                    "<capabilities> and exactly one session-id with a valid non-zero 32-bit value, and the reported id is the hello's.  (3) "
                    "Capabilities::read_xml over <capabilities> holding any subset of {:base:1.0, :base:1.1}: the set read is the set sent.  "
@@ -383,8 +383,9 @@ CHECKS["C12"] = {
     ] + [
         harness("c12_server_hello_sequences_%s" % g, functions=["ServerHello::read_xml", "SessionId::from_str"],
                 bounds="children of <hello>: layouts %s of the 12 sequences of length <= 3 over {session-id, capabilities} (concrete loop); "
-                       "session-id text from {1, 4294967295, 0, 4294967296, -1, x} (walked concretely as well: 18 hellos per harness); capabilities = {:base:1.0} (summarised reader)" % r,
-                loops=HELLO_LOOPS, stubbing=True, timeout={"quick": 1800, "thorough": 3600}, mem_gb=36, target="c12_hs_%s" % g)
+                       "session-id text from {1, 0, 4294967296} (walked concretely as well: 9 hellos per harness); capabilities = {:base:1.0} (summarised reader)" % r,
+                deep_bounds="as quick, with all six session-id texts {1, 4294967295, 0, 4294967296, -1, x}", deep=True,
+                loops=HELLO_LOOPS, stubbing=True, timeout={"quick": 800, "thorough": 3600}, mem_gb=36, target="c12_hs_%s" % g)
         for g, r in (("a", "1-3 (none / sid / caps)"), ("b", "4-6 (sid,sid / sid,caps / caps,sid)"), ("c", "7-9 (three children, one caps)"), ("d", "10-12 (sid x3 / caps x2)"))
     ] + [
         harness("c12_server_hello_session_id_after_capabilities", functions=["ServerHello::read_xml", "SessionId::from_str"],
@@ -503,19 +504,24 @@ C16_LOOPS.update({r"seek_end": 8, r"name_id_of": 7})
 CHECKS["C16"] = {
     "crates": ["netconf", "junos-agent"],
     "explanation": "Maybe<Candidate>::read_xml (attribute scan with namespace resolution, comment decoration stripping, expression parse, then the body "
-                   "scan of a plain statement) over one policy-statement carrying one attribute of any kind from {jcmd:active=false|true, jcmd:comment "
+                   "scan of a plain statement) over one policy-statement carrying no attribute or one attribute from {jcmd:active=false|true, jcmd:comment "
                    "with 4 texts (decorated annotation, plain annotation, unrelated comment, unparsable expression), xmlns:jcmd, o:comment in a "
-                   "foreign namespace} and the body <name/> + <then><reject/></then>; the result is compared with an independent selection "
+                   "foreign namespace} (9 cases walked by a concrete loop; the solver decides every branch that does not fold) and the body <name/> + <then><reject/></then>; 8 two-attribute cases in both orders; the 4 bodies (name + reject, name only, reject only, "
+                   "name + accept) under a valid annotation; each result is compared with an independent selection "
                    "predicate: selected iff not inactive and annotated with a parseable expression; name and expression are the configuration's.",
     "assumptions": ["rpsl is modelled: an expression parses iff it is in the declared pool {AS-FOO, AS65000}",
                     "event-level tape; attribute values are logical (unescaped) values",
-                    "NOT covered (harnesses kept as experimental, > 25 min): two attributes in either order (c16_attribute_scan), bodies other than the plain "
-                    "default-reject one (c16_body_scan), Policies<Candidate>::read_xml (enclosing loops, duplicate names)"],
+                    "attribute cases and bodies are enumerated (one and two attributes; 4 bodies with a valid annotation), not symbolic: the fully symbolic versions "
+                    "(c16_attribute_scan) need > 25 min and are kept as experimental",
+                    "NOT covered: Policies<Candidate>::read_xml (the enclosing configuration / policy-options loops, duplicate policy names)"],
     "harnesses": [
         harness("c16_attribute_scan_single", package=AGENT, functions=["policies::fetch::Maybe<Candidate>::read_xml (attribute scan)"],
-                bounds="1 statement, 1 attribute of any kind/value, plain body", loops=C16_LOOPS, timeout={"quick": 1500, "thorough": 3600}, mem_gb=30),
+                bounds="1 statement, plain body; 9 attribute cases walked by a concrete loop: none, active=false/true, jcmd:comment with 4 texts, xmlns:jcmd, foreign-namespace comment", loops=dict(C16_LOOPS, **{r"c16_attribute_scan_single": 10}), timeout={"quick": 800, "thorough": 3600}, mem_gb=30),
         harness("c16_body_scan", package=AGENT, functions=["policies::fetch::Maybe<Candidate>::read_xml (body scan)"],
-                bounds="1 active annotated statement, 4 bodies", loops=C16_LOOPS, tiers=["experimental"], mem_gb=30),
+                bounds="1 active annotated statement; 4 bodies walked by a concrete loop (name + reject, name only, reject only, name + accept)", loops=dict(C16_LOOPS, **{r"c16_body_scan": 6}), timeout={"quick": 800, "thorough": 3600}, mem_gb=30),
+        harness("c16_attribute_pairs", package=AGENT, functions=["policies::fetch::Maybe<Candidate>::read_xml (attribute scan)"],
+                bounds="1 statement, plain body; 8 two-attribute cases walked by a concrete loop (active/comment in both orders, duplicated xmlns:jcmd, foreign comment + unrelated comment, unparsable annotation)",
+                loops=dict(C16_LOOPS, **{r"c16_attribute_pairs": 10}), timeout={"quick": 800, "thorough": 3600}, mem_gb=30),
         harness("c16_attribute_scan", package=AGENT, functions=["policies::fetch::Maybe<Candidate>::read_xml (attribute scan)"],
                 bounds="1 statement, 2 attributes of any kind/value in any order, plain body", loops=C16_LOOPS, tiers=["experimental"], mem_gb=40),
     ],
